@@ -105,6 +105,39 @@ CLAIMED['C12'] = dict(
     note=TA + 'JSON/CID of the access map by injective contract; an invitation whose Secret is the (publicly signed) link key is excluded from the tamper harness and documented in DESIGN C12.',
     design='6/C12')
 
+TB = ('Schedule-symbolic BMC: goroutine bodies executed in open mode by the interpreter (visible operations recorded, reads symbolic), one formula per tuple of '
+      'operation sequences with free who_k/stop variables; stuck states, assertions and unwinding assertions decided by z3. Trusted: go/ssa lowering, wesym, '
+      'the operation semantics in engine/wesym/bmc.py (mutex, RWMutex, unbuffered/buffered channel, select, close, context, FIFO list, scalar and channel-pointer cells, '
+      'datastore arrays), sequential consistency. ')
+CLAIMED['C09'] = dict(
+    text='Schedule-symbolic BMC of concurrent SealEnvelope calls on one secret store (every datastore operation and every messageMutex operation a visible step): '
+         'stuck states, per-goroutine assertions and final-state assertions over the header counters of the returned envelopes (pairwise distinct, gap-free, increasing); '
+         'the datastore invariant used to avoid forking on reads (chain-key entry present and well-formed) is itself a state assertion of the BMC.',
+    note=TB + 'Bounds: 2 senders x 1 message on one and on two groups (quick); 2x2 and 3x1 (thorough). Outside: receivers running concurrently, real parallel hardware below SC.',
+    design='4, 6/C09', technique='bounded model checking with symbolic schedules over go/ssa-derived operation sequences + SMT (z3)')
+CLAIMED['C10'] = dict(
+    text='Symbolic execution of receive / send / key-creation workloads with the crash point a free integer kappa masking every later datastore or keystore mutation '
+         '(one run covers every crash point and no crash), then a new store on the surviving arrays: reopen by CID, still openable, no counter reuse across the restart, same keys.',
+    note=TA + 'atomic durable in-order writes and atomic batch commit (badger); the announcement is re-delivered after restart; workloads of 2 messages, window 2.',
+    design='5, 6/C10')
+CLAIMED['C16'] = dict(
+    text='Schedule-symbolic BMC of the real internal/notify, pkg/lifecycle Manager and ConnectednessManager: waiter(s) against broadcaster/updater (+canceller); no reachable stuck '
+         'state, cancelled waits return false, unwinding assertions. Found the lock-order deadlock and the missed update of the connectedness manager (known findings, confirmed natively).',
+    note=TB + 'Bounds: 1 waiter + 1 updater (+canceller) in quick, 2 waiters in thorough; waiter loop cut after 2-3 iterations (checked); group and first peer of the connectedness '
+         'manager set up sequentially. Outside: tinder peersCache; concurrently mutated maps beyond the association itself.',
+    design='4, 6/C16', technique='bounded model checking with symbolic schedules over go/ssa-derived operation sequences + SMT (z3)')
+CLAIMED['C19'] = dict(
+    text='Symbolic execution of 24 service handlers from their first instruction with an arbitrary request (every byte field nil or free bytes, strings/numbers free, sub-messages nil or filled) '
+         'in three service states (account group deactivated / active / plus an open multi-member group) and of the exported cryptoutil helpers for a table of key/data lengths: any Go '
+         'run-time panic on a feasible path is a violation; handlers needing the account group must answer its absence with an error. Found 5 crash defects (fixed).',
+    note=TA + 'handlers needing IPFS/OrbitDB/libp2p/gRPC streams are outside (listed in the evidence); subsystems behind contracts are assumed not to panic.',
+    design='6/C19')
+CLAIMED['C15']['text'] = ('Sequential contracts of both queues by bounded symbolic execution (real container/heap and container/list; free 64-bit counters; all orders and ties of up to 4/5 items) '
+    'AND the concurrent contract of SimpleQueue by schedule-symbolic BMC of the real Add/WaitForItem: 1-2 producers, 1 consumer, optional canceller; no reachable stuck state '
+    '(a consumer parked with a non-empty queue), per-producer FIFO / exactly once. Found the lost wake-up (fixed).')
+CLAIMED['C15']['note'] = TB + 'Bounds: (producers x items, cancel) in {(1,1,0),(1,2,0),(2,1,0),(1,1,1)} quick, up to (1,3,0),(1,2,1),(2,1,1) thorough; SimpleQueue instantiated at int for the concurrent harness.'
+CLAIMED['C15']['technique'] = 'bounded symbolic execution + bounded model checking with symbolic schedules, SMT (z3)'
+
 NOT_APPLICABLE = {}
 ALL = ['C%02d' % i for i in range(1, 21)]
 PENDING_REASON = 'no solver-based check registered yet for this property in the current state of /verif (see DESIGN.md section 9)'
